@@ -494,8 +494,8 @@ with destroy (fuel : nat) (w : positive) {struct fuel} : M unit :=
     else
       cw <- getw w ;;
       (if w_closed cw then ret tt else close f w) ;;;
+      root_cleanup f w ;;;                  (* repaired code: the root's queue goes before the children *)
       destroy_loop f w ;;;
-      root_cleanup f w ;;;
       freew w
   end
 (* while(win->first_child) { child = win->first_child; win->first_child = child->next;
